@@ -177,6 +177,79 @@ type ScalarCase struct {
 	Objs  []SSpec  `json:"objects"`
 	Shape string   `json:"shape"`
 	NE    int      `json:"vector_elements,omitempty"`
+	// Hist: one object of the aliased call did not start its life with the content Objs[Hist.Obj]:
+	// it held earlier contents of other derivative orders first (see ObjHist)
+	Hist *ObjHist `json:"history,omitempty"`
+}
+
+// ObjHist: the object was created holding a value of jet kind Prev[0] (value 7, derivative
+// pattern 2), was then overwritten with values of kinds Prev[1:], and finally received its
+// current content Objs[Obj] by the assignment Route: "Set" (r.Set(src)) or "Add0" (as the
+// result of the operation r.Add(src, 0)). Every step goes through the public API; the public
+// state of the object afterwards equals that of a brand-new object holding Objs[Obj] (checked,
+// else harness error), so the alias-free references are built from brand-new objects.
+type ObjHist struct {
+	Obj   int    `json:"object"`
+	Prev  []int  `json:"earlier_kinds"`
+	Route string `json:"route"`
+}
+
+var histRoutes = []string{"Set", "Add0"}
+
+// histsFor: the earlier-content sequences of an object whose current content has jet kind k:
+// kinds over the same number of variables (order 1, 2, 0 with N=2), adjacent orders different,
+// the last one different from the current order; depth earlier assignments.
+func histsFor(k, depth int) [][]int {
+	cur, _ := kindOrderN(k)
+	pool := []int{2, 1, 4}
+	var out [][]int
+	var rec func(seq []int, next int)
+	rec = func(seq []int, next int) {
+		if len(seq) > 0 {
+			out = append(out, append([]int(nil), seq...))
+		}
+		if len(seq) == depth {
+			return
+		}
+		for _, p := range pool {
+			o, _ := kindOrderN(p)
+			if o == next {
+				continue
+			}
+			rec(append([]int{p}, seq...), o)
+		}
+	}
+	rec(nil, cur)
+	return out
+}
+
+func histString(h *ObjHist, cur int) string {
+	var p []string
+	for _, k := range append(append([]int(nil), h.Prev...), cur) {
+		o, _ := kindOrderN(k)
+		p = append(p, fmt.Sprintf("o%d", o))
+	}
+	return strings.Join(p, ">")
+}
+
+// mkHistScalar builds the object described by h. ok=false: the route did not reproduce the
+// intended public state (the harness's construction is wrong, not the library).
+func mkHistScalar(e ElemT, sp SSpec, h *ObjHist) (s ad.Scalar, ok bool) {
+	junk := func(k int) ad.Scalar { return mkScalar(e, SSpec{V: "7", K: k, D: 2}) }
+	s = junk(h.Prev[0])
+	for _, k := range h.Prev[1:] {
+		s.Set(junk(k))
+	}
+	src := mkScalar(e, sp)
+	switch h.Route {
+	case "Set":
+		s.Set(src)
+	case "Add0":
+		s.Add(src, ad.ConstFloat64(0))
+	default:
+		panic("unknown history route " + h.Route)
+	}
+	return s, encScalar(s, true) == encScalar(src, true)
 }
 
 func upperIfExists(recv any, name string) (string, bool) {
@@ -262,7 +335,14 @@ func buildScalarWorld(cs *ScalarCase, e ElemT, aliased bool) (args []ad.Scalar, 
 	for i, o := range cs.Slot {
 		if aliased {
 			if objs[o] == nil {
-				objs[o] = mkScalar(e, cs.Objs[o])
+				if cs.Hist != nil && cs.Hist.Obj == o {
+					var ok bool
+					if objs[o], ok = mkHistScalar(e, cs.Objs[o], cs.Hist); !ok {
+						panic(histBuildError{fmt.Sprintf("history %v of object %d (%v) does not end in the intended public state", *cs.Hist, o, cs.Objs[o])})
+					}
+				} else {
+					objs[o] = mkScalar(e, cs.Objs[o])
+				}
 			}
 			args[i] = objs[o]
 		} else {
@@ -433,6 +513,9 @@ func (cs *ScalarCase) receiverShared() bool {
 func runScalarCase(cs *ScalarCase) (key, what, outcome string) {
 	e := elemByName(cs.T)
 	var rA, rR string
+	if cs.Hist != nil && (cs.NE > 0 || !e.Real || cs.Hist.Obj < 0 || cs.Hist.Obj >= len(cs.Objs) || len(cs.Hist.Prev) == 0) {
+		panic(histBuildError{"malformed history case"})
+	}
 	aArgs, aVecs := buildScalarWorld(cs, e, true)
 	pA := call(func() { callScalarOp(cs, e, aArgs, aVecs) })
 	rArgs, rVecs := buildScalarWorld(cs, e, false)
@@ -490,8 +573,28 @@ func runScalarCase(cs *ScalarCase) (key, what, outcome string) {
 		key = fmt.Sprintf("%s|%s-scalar|r=x[i]|receiver-is-element-of-vector-operand|differs", cs.Op, fam)
 		return key, what, "differs"
 	}
+	if h := cs.Hist; h != nil {
+		// only reached when the same call on brand-new objects is alias independent: keyed by the
+		// history and the block of slots the object is bound to, not by the operation
+		what += fmt.Sprintf("; the object bound to %s held contents of orders %s before (last assignment: %s); with brand-new objects the aliased call agrees", cs.blockName(h.Obj), histString(h, cs.Objs[h.Obj].K), h.Route)
+		key = fmt.Sprintf("history|%s|shape=%s|%s|object=%s|%s|%s", cs.T, cs.Shape, cs.partition(), cs.blockName(h.Obj), histString(h, cs.Objs[h.Obj].K), diff)
+		return key, what, "differs"
+	}
 	key = fmt.Sprintf("%s|%s|%s|%s|%s", cs.Op, cs.T, cs.partition(), cs.class(op), diff)
 	return key, what, "differs"
+}
+
+type histBuildError struct{ msg string }
+
+// blockName: the slots bound to object o.
+func (cs *ScalarCase) blockName(o int) string {
+	var m []string
+	for i, b := range cs.Slot {
+		if b == o {
+			m = append(m, cs.Slots[i])
+		}
+	}
+	return strings.Join(m, "=")
 }
 
 func fmtObjs(o []SSpec) string {
@@ -696,5 +799,48 @@ func (x *explorer) emitScalar(cs *ScalarCase) {
 	}
 	if x.idx%500009 == 1 {
 		c.Sample(cs)
+	}
+	// object histories (derivative-tracking types): the same call, alias-independent on brand-new
+	// objects, with one object at a time having held contents of other derivative orders before
+	if outcome != "equal" || cs.NE > 0 || !elemByName(cs.T).Real {
+		return
+	}
+	nobj := len(cs.Objs)
+	for o := 0; o < nobj; o++ {
+		for _, prev := range histsFor(cs.Objs[o].K, x.histDepth) {
+			for _, route := range histRoutes {
+				hc := *cs
+				hc.Hist = &ObjHist{Obj: o, Prev: prev, Route: route}
+				x.emitHist(&hc)
+			}
+		}
+	}
+}
+
+func (x *explorer) emitHist(cs *ScalarCase) {
+	c := x.c
+	defer func() {
+		if r := recover(); r != nil {
+			if hb, ok := r.(histBuildError); ok {
+				c.HarnessError(hb.msg)
+				return
+			}
+			panic(r)
+		}
+	}()
+	c.Eval(1)
+	key, what, outcome := runScalarCase(cs)
+	dem := "demanded"
+	if !cs.demanded() {
+		dem = "temp-shared"
+	}
+	c.Outcome("scalar-history:" + dem + ":" + outcome)
+	c.Count("cases:scalar-op-object-history", 1)
+	c.Count("cases:scalar-op-object-history:"+histString(cs.Hist, cs.Objs[cs.Hist.Obj].K), 1)
+	if outcome != "reference-panics" {
+		c.Nontrivial(1)
+	}
+	if key != "" {
+		c.Violate(key, what, x.idx, Case{Scalar: cs})
 	}
 }
